@@ -233,6 +233,8 @@ def trace_obligations(ctx):
     tabs = {PROP: gen.Table(PROP)}
     if ctx.thorough:
         tabs[THOROUGH_PROP] = gen.Table(THOROUGH_PROP)
+    for _t in tabs.values():
+        _t.emit_single = True  # `<name>_single`: the simulator-level reading of each obligation (QV/Proofs/Bridge.lean)
     raised = []  # (label, class, exception) real code raised while tracing a documented input
     nb = qgates.np_backend()
     seen_terms = {}
@@ -312,7 +314,15 @@ def trace_obligations(ctx):
 
     results = {}
     for prop, tab in tabs.items():
+        # every proved entry / translate_gate obligation as a `PhaseEq` over the unit circle in the
+        # simulator model (the conclusion C10's `TablesOK` asks of a table call, QV/Props/C10b.lean)
+        tab.class_table(f"{prop}_entries", "QV.Ob.SingleStmt",
+                        [(n, f"{n}_single") for n, _, m in tab.obs if m.get("run") and n.startswith(("C10_entry_", "C10_tr_"))])
+        tab.corollary(f"{prop}_entries_phaseEq", f"∀ o ∈ {prop}_entries, QV.Props.C10.EntryPhaseEq o",
+                      f"fun o ho => QV.Props.C10.T10_entryPhaseEq_of_single o ({prop}_entries_ok o ho)",
+                      needs=[f"{prop}_entries_ok"], imports=["QV.Props.C10b"])
         status, passed = tab.emit(extra_imports=["QV.Model.Unroller"])
+        ctx.stats[f"{prop}_obligations_with_simulator_reading"] = len([c for c in tab.cor_names if c.endswith("_single")])
         for name, expr, meta in tab.obs:
             ok, sup = status.get(name, (False, False))
             results[name] = (ok, sup)
